@@ -221,10 +221,12 @@ off64_t _GD_GzipSize(int dirfd, struct gd_raw_file_ *file, gd_type_t data_type,
 
   /* seek to the end */
   if (lseek64(fd, -4, SEEK_END) == -1) {
+    close(fd);
     dreturn("%i", -1);
     return -1;
   }
   if (read(fd, &size, 4) < 4) {
+    close(fd);
     dreturn("%i", -1);
     return -1;
   }
